@@ -227,7 +227,7 @@ PROPS = {
     },
     'C08': {
         'id': 'C08', 'area': 'lc8',
-        'theorems': ['Props.C08_same_boot_belongs', 'Props.C08_absorb_same_boot', 'Props.C08_next_boot_fresh', 'Props.C08_excluded_witness'],
+        'theorems': ['Props.C08_same_boot_belongs', 'Props.C08_absorb_same_boot', 'Props.C08_next_boot_fresh', 'Props.C08_clean_trace_exact', 'Props.C08_clean_trace_table', 'Props.C08_excluded_witness'],
         'n_quick': 4000, 'n_thorough': 150000, 'project': _lc_project,
     },
     'C19': {
